@@ -66,20 +66,24 @@ def rule_reset(ck, rid="C14.R4"):
     f = repo.fn("Battery.reset")
     fl = flow_of(f)
     param = f.params[1]
-    ch = [(n, t) for n, k, p, t in state_writes(fl) if p == "self._current_charge"]
-    pw = [(n, t) for n, k, p, t in state_writes(fl) if p == "self._current_charging_power"]
-    ck.require(fl.cfg.exit not in fl.cfg.reach(fl.cfg.entry, avoid={n for n, _ in ch}), rid, f, "self._current_charge = ...", ok="charge restored on every path",
-               bad="a path through reset leaves the stored charge unchanged", sink="reset-charge-every-path")
-    for n, t in ch:
-        v = canon(fl.expand(n.stmt.value, n))
-        dflt = any((c := cmp_norm(a, tr)) and canon(c[0]) == param and c[1] in ("is", "==") and canon(c[2]) == "None" for a, tr in facts_at(fl, n))
-        ok = (v == "self._init_charge" and dflt) or (v == param and not dflt)
-        ck.require(ok, rid, f, n.stmt, ok="initial charge by default, the given charge otherwise", bad=f"reset must restore self._init_charge (default) or the given charge; stores {v}",
+    from .. import pathtab
+    rows = [r for r in pathtab.table(fl) if r.end != "raise"]
+    ck.floor(rid, len(rows), 2, "normally ending paths of Battery.reset")
+
+    def is_default(k, a):
+        return k == f"{param} is None"
+    for r in rows:
+        stores = [(k, st, node) for kind, k, st, node in r.effects if kind == "store" and k.startswith("self._current_charge = ")]
+        vals = [k.split(" = ", 1)[1] for k, _, _ in stores]
+        dflt = pathtab.implied(fl, r, is_default)
+        want = "self._init_charge" if dflt is True else (param if dflt is False else None)
+        ok = bool(vals) and want is not None and vals[-1] == want
+        ck.require(ok, rid, f, stores[-1][1] if stores else "self._current_charge = ...", ok="initial charge by default, the given charge otherwise",
+                   bad=f"reset must restore self._init_charge (no argument) or the given charge; on the path [{r.describe(80)}] the stored charge is {vals[-1] if vals else 'left unchanged'}",
                    sink="reset-charge-value")
-    ok = bool(pw) and all(isinstance(n.stmt.value, ast.Constant) and n.stmt.value.value == 0 for n, _ in pw) and \
-        fl.cfg.exit not in fl.cfg.reach(fl.cfg.entry, avoid={n for n, _ in pw})
-    ck.require(ok, rid, f, pw[0][1] if pw else "self._current_charging_power = 0", ok="power zeroed on every path", bad="reset must set the charging power to 0 on every path",
-               sink="reset-power")
+        pws = [k.split(" = ", 1)[1] for kind, k, st, node in r.effects if kind == "store" and k.startswith("self._current_charging_power = ")]
+        ck.require(bool(pws) and pws[-1] == "0", rid, f, "self._current_charging_power = 0", ok="power zeroed on every path", bad="reset must set the charging power to 0 on every path",
+                   sink="reset-power")
     # every piece of state a charging step changes is re-initialised by reset: attributes written by the charge routines of a battery
     # class are written by the reset of that class (the inherited Battery.reset or an override that calls it)
     for cname in ("Battery", "Linear2StageBattery"):
